@@ -14,3 +14,7 @@ claim("C15", "invariant monitor over every node/diagnostic + direct line/column 
       "For every accepted input every node's range is checked for bounds, nesting and order and its own text is re-parsed to the same subtree; for every rejected input the error string and every diagnostic are checked against a direct count of line-break units; the offset->line/column helpers are compared with the direct count at every offset of all short texts over the six line-break forms.",
       "Trusts the direct count (15 lines) as the meaning of line/column; re-parse of member names is excluded.",
       "5/C15")
+claim("C03", "runtime totality monitor in child processes (escaped-panic / process-death / result-shape / visit-bound) + misuse templates that must yield an error",
+      "Generated programs over every operator, keyword, builtin and data/host-function name are evaluated by the real Runner.Resolve against generated data maps (odd kinds, typed maps, structs, nil pointers, host functions); each child writes a breadcrumb before every call so a fatal runtime error is attributed and re-confirmed in a fresh child. Misuse templates of the statement's classes must return an error. Two crash inputs are recorded as known findings and re-observed by probe children.",
+      "Trusts Go's runtime traps (panic/fatal error) as the crash observation and the hook at the evaluator's dispatch for the visit count; pad lengths are bounded structurally as the statement says.",
+      "5/C03")
